@@ -132,3 +132,10 @@ reg("C17",
     level_note="Trusted: vf/monitor.snapshot (sha1 of contiguous bytes + metadata). A mutation that is undone before the call returns is invisible by design (the property speaks of the state after return/raise).",
     rule="case = (operation x backing [numpy|view|dask] x accessor kind) | (selection method x conventions x query container x precomputed) | (constructor x coord container) | (model x entry x backing) | writer; distinct = distinct keys",
     must_observe=["accessor:hs", "accessor:ptm1", "accessor:smooth", "sel:nearest", "sel:idw", "sel:bbox", "construct:construct_partition", "reader:ww3", "reader:ncswan", "reader:wwm", "writer:swan", "writer:ww3", "writer:netcdf", "writer:octopus"])
+
+reg("C14",
+    technique="runtime reference-geometry monitor: recorded Dataset.spec.sel results vs an independent model (short-way longitude differences, nearest/idw/bbox rules evaluated in the query's convention)",
+    level_text="Station layouts (random, clustered around 0E/90E/180E/270E, pairs either side of Greenwich and of the dateline) are queried with nearest, idw and bbox selection for all four dataset/query convention combinations, tolerances 0-10, max_sites 1-6, duplicated query points, exact hits and optional precomputed station coordinates; the recorded selection (identified by station-coded efth values), idw weights, failures above tolerance and reported longitudes are compared with an independent geometric model. Held = on the queries observed.",
+    level_note="Trusted: numpy; vf/checks/c14.py geometry. Queries whose convention is ambiguous (all longitudes in [0,180]) and whose two readings select different stations, stations within 1e-9 of a box edge / meridian seam / the tolerance, and equidistant candidates are inconclusive.",
+    rule="case = (method x station layout x dataset convention x query convention x tolerance x precomputed [x max_sites]); distinct = distinct keys",
+    must_observe=["nearest", "idw", "bbox"])
